@@ -16,5 +16,5 @@ if [ ! -f "$B/build.ninja" ]; then
     -DPIKA_WITH_MALLOC=system -DPIKA_WITH_UNITY_BUILD=ON \
     "-DCMAKE_CXX_FLAGS=-Wno-error -DPIKA_VERIF_HOOKS -g0" $EXTRA > "$B/cmake.log" 2>&1 || { tail -30 "$B/cmake.log"; exit 2; }
 fi
-ninja -C "$B" -j16 > "$B/ninja.log" 2>&1 || { grep -E "error|Error" -A5 "$B/ninja.log" | head -60; exit 2; }
+ninja -C "$B" -j${VERIF_JOBS:-6} > "$B/ninja.log" 2>&1 || { grep -E "error|Error" -A5 "$B/ninja.log" | head -60; exit 2; }
 echo "pika-$VARIANT ok"
